@@ -63,6 +63,9 @@ class FirstHeader(BytesInterface):
             else pdu_type
         )
         self.is_control_message: bool = bool(self.pdu_type.value[0])
+        if self.pdu_type == TMSPDUType.SIMPLE_TEXT_MESSAGE:
+            # text messages go out with the reserved bit set (see as_bytes), field says what is sent
+            self.is_reserved = True
 
     def set_has_more_headers(self, has: bool) -> "FirstHeader":
         self.has_more_headers = has
